@@ -175,7 +175,7 @@ PROPS = {
              "traffic in half of the runs. Offline checks over the event log: no duplicate delivery, nothing delivered that was not written, "
              "per-client order (over tcp/tls also no gap), every acknowledged message of a gracefully closed tcp/tls connection delivered "
              "(runs without early Stop), GetNumConnToCollector() back to 0, Stop returns (30 s bound, normal ms), afterwards no goroutine with "
-             "a pkg/collector frame, the port refuses connections and can be re-bound; race detector reports with a go-ipfix frame are "
+             "a pkg/collector frame and this process owns no socket on the collector's port (/proc/self/fd against /proc/self/net/*); race detector reports with a go-ipfix frame are "
              "violations. Non-trivial = deliveries of >= 2 clients interleaved; distinct by hash of the delivery interleaving.",
              COMMON_ASSUME + ["the goroutine that calls Stop() first waits for GetAddress() != nil (the only readiness signal the API offers)",
                               "udp runs where fewer than half of the datagrams are delivered are inconclusive, not held", "DTLS is excluded by the property"],
